@@ -113,6 +113,8 @@ def rule_coq(t):
         schn = ctx == "tap"
         unc = (ki != "-") and int(ki) >= 6 and kt == "0"
         call = "(%s %s %s)" % ("RPkK" if name == "pk_k" else "RPkH", b(schn), b(unc))
+        if name == "pk_h" and ki == "-":
+            call = "(RPkHNone %s)" % b(schn)
     elif name == "after":
         call = "(RAfter %s)" % args[0]
     elif name == "older":
